@@ -12,6 +12,13 @@
             the line carries both resulting states, the candidate headers that
             were submitted to ValidateHeader against the state before the step
             with their verdicts, a sibling state and the fork-choice verdicts.
+            Timestamps are instants <<s, ns>>.  Three more states are on the
+            line: x, reached by a third chain that takes the header and the
+            full-block entry point in alternation and is handed every instant
+            in another representation (time zone, monotonic clock reading), and
+            dh / df, the state before the step extended by the header / block
+            as it comes back from its encoding (whole seconds): they must be
+            the states h / f (clause Encoded.same).
 
    The state before a step is never read from the line: it is the state the
    specification derived from the previous line.  Every clause that does not
@@ -34,10 +41,12 @@ StateClauses(net, s, ln) ==
   /\ Check(InvOakWork(net, s), ln, "Inverse.oakWork")
   /\ Check(InvPoWTarget(net, s), ln, "Inverse.powTarget")
 
+Instants(q) == \A i \in DOMAIN q : IsInstant(q[i])
 ResetOK(t, ln) ==
   IF t.panic # "" THEN Reject(ln, "Total")
   ELSE /\ Check(WellFormedNet(t.net), ln, "Env.network")
        /\ Check(Len(t.s.prev) = (IF t.s.height + 1 > 11 THEN 11 ELSE t.s.height + 1), ln, "Env.window")
+       /\ Check(Instants(t.s.prev), ln, "Env.instant")
        /\ StateClauses(t.net, View(t.net, t.s), ln)
 
 Header(t, c) == [parent |-> t.parents[c.p], ts |-> c.ts, nonce |-> c.nonce, id |-> c.id]
@@ -49,12 +58,22 @@ StepOK(t, ln) ==
       hd  == Header(t, t.cands[1])             \* the header that was applied
       s2  == View(net, t.f)
       era == Era(net, st.height + 1)
+      med == Median(st.prev)
   IN
-  \* header-only application yields the same proof-of-work state as the full block
+  /\ Check(IsInstant(hd.ts) /\ \A j \in DOMAIN t.cands : IsInstant(t.cands[j].ts), ln, "Env.instant")
+  \* header-only application yields the same proof-of-work state as the full block (every field, the oak time and
+  \* the timestamp window at the resolution of one nanosecond)
   /\ Check(t.h = t.f, ln, "HeaderFull")
+  \* ... whichever entry point applied the headers before it, and however the instants are represented
+  /\ Check(t.x = t.f, ln, "HeaderFull.instant")
+  \* ... and the state is a function of the ENCODED header: the block and the header as they come back from their
+  \* encoding (same ID, whole second) give the same state as the original forms, by both entry points, and every
+  \* candidate gets the same verdict in both forms
+  /\ Check(/\ t.df = t.f /\ t.dh = t.h
+           /\ \A j \in DOMAIN t.cands : t.cands[j].okd = t.cands[j].ok, ln, "Encoded.same")
   \* bookkeeping of the tip and of the timestamp window
   /\ Check(s2.height = st.height + 1 /\ s2.tip = hd.id, ln, "Index")
-  /\ Check(s2.prev = Window(<<hd.ts>> \o st.prev), ln, "PrevTimestamps")
+  /\ Check(s2.prev = Window(<<Sec(hd.ts)>> \o st.prev), ln, "PrevTimestamps")
   \* the clamp of the era
   /\ Check(Clamp(net, st, s2), ln, era)
   /\ StateClauses(net, s2, ln)
@@ -62,9 +81,9 @@ StepOK(t, ln) ==
   /\ Check(WorkSum(net, st, s2), ln, "WorkSum")
   \* every candidate header: the verdict of ValidateHeader is the header rule
   /\ \A j \in DOMAIN t.cands :
-       LET c == t.cands[j]  want == HeaderOK(net, st, Header(t, c)) IN
-       Check(c.ok = want /\ c.okh = want, ln, "HeaderOK." \o c.k)
-  /\ Check(~t.hasM2 \/ t.m2 = Median2(st.prev), ln, "Env.skeletonMedian")
+       LET c == t.cands[j]  want == HeaderOKm(net, st, Header(t, c), med) IN
+       Check(c.ok = want /\ c.okh = want /\ c.okr = want, ln, "HeaderOK." \o c.k)
+  /\ Check(~t.hasMed \/ t.med = med, ln, "Env.skeletonMedian")
   \* fork choice: verdicts are the definition, and the relation is asymmetric
   /\ LET sib == [W |-> t.sib.W, D |-> t.sib.D] IN
      /\ Check(/\ t.hv[1] = Heavier(s2, sib) /\ t.hv[2] = Heavier(sib, s2)
